@@ -23,6 +23,7 @@ RULE = (
     'voxels on a grid with blocked voxels; distinct = SHA-1 of (grid, request).'
 )
 RULE += ' Added in rounds 6-9: walls exactly at / one ulp around the threshold, inf and NaN; Fortran-ordered grids; two mutually disconnected percolating networks; peaks on blocked voxels or isolated pockets listed anywhere in the peak list.'
+RULE += ' Round 15: the n best paths are requested under all additive / hop criteria; the first one is the optimum under the criterion asked for.'
 RULE += ' Round 14: percolating channels lying exactly at energy 0.0 (path cost 0.0); a quarter of the random grids with integer-valued energies and exact zeros.'
 ASSUMPTIONS = [
     'costs compared at relative tolerance 1e-9',
@@ -308,8 +309,10 @@ def run_unit(unit, rng, ctx):
         a_, b_ = (nodes[int(i_)] for i_ in rng.choice(len(nodes), size=2, replace=False))
         what = f'{what0} optimal_n_paths {a_}->{b_}'
         wit = {**wit0, 'start': a_, 'stop': b_}
+        meth_n = str(rng.choice(['dijkstra', 'dijkstra', 'simple', 'dijkstra-exp', 'bellman-ford']))
+        what += f' method={meth_n}'
         try:
-            plist = F.optimal_n_paths(F_graph=G, start=a_, stop=b_, n_paths=int(rng.integers(2, 5)), min_diff=0.0)  # any min_diff > 0 can make the library enumerate every simple path of the grid (its documented caveat); 0 accepts each distinct path
+            plist = F.optimal_n_paths(F_graph=G, start=a_, stop=b_, n_paths=int(rng.integers(2, 5)), min_diff=0.0, **({} if meth_n == 'dijkstra' and rng.integers(2) else {'method': meth_n}))  # any min_diff > 0 can make the library enumerate every simple path of the grid (its documented caveat); 0 accepts each distinct path
         except (nx.NetworkXNoPath, nx.NodeNotFound):
             plist = None
             o_ = models.dijkstra(nb_gem, allowed, a_, b_, edge_cost_fn(Fd, 'dijkstra', thr))
@@ -326,8 +329,8 @@ def run_unit(unit, rng, ctx):
                 seen_.add(tuple(sites))
             s0 = [tuple(int(x) for x in s_) for s_ in plist[0].sites]
             if valid_steps(s0, shape, nb_full, allowed) is None:
-                cst = edge_cost_fn(Fd, 'dijkstra', thr)
-                judge_cost(ctx, what + ' (first path)', {**wit, 'sites': s0}, 'dijkstra', path_cost(s0, cst), models.dijkstra(nb_full, allowed, a_, b_, cst), models.dijkstra(nb_gem, allowed, a_, b_, cst) if diagonal else models.dijkstra(nb_full, allowed, a_, b_, cst), diagonal)
+                cst = edge_cost_fn(Fd, meth_n, thr)
+                judge_cost(ctx, what + ' (first path)', {**wit, 'sites': s0}, meth_n, path_cost(s0, cst), models.dijkstra(nb_full, allowed, a_, b_, cst), models.dijkstra(nb_gem, allowed, a_, b_, cst) if diagonal else models.dijkstra(nb_full, allowed, a_, b_, cst), diagonal)
             ctx.count('n_best_path_lists_checked')
             ctx.count('paths_in_n_best_lists', len(plist))
             ctx.count('distinct_paths_in_n_best_lists', len(seen_))
